@@ -605,8 +605,8 @@ class TermBuilder:
             s = stores[0]
             tgt = s.targets[0]
             sn = self.cfg.stmt_node.get(id(s))
-            if (isinstance(tgt, ast.Subscript) and sn is not None and self.cfg.dominates(sn, at)
-                    and not self.cfg.enclosing_loops(sn)):
+            if (isinstance(tgt, ast.Subscript) and sn is not None and self.cfg.dominates(sn, at) and sn.id != at.id
+                    and not self.cfg.enclosing_loops(sn)):        # (a read inside the storing statement sees the old value)
                 base = self.term(st.value, d)
                 mask = self.term(tgt.slice, sn)
                 if self._is_mask(mask):
@@ -1076,7 +1076,7 @@ class TermBuilder:
         return True
 
     def _inline(self, f: FuncInfo, args: List[T], kw: Dict[str, T], at: Node) -> T:
-        params = f.params
+        params = f.own_params
         bind: Dict[str, T] = {}
         if len(args) > len(params):
             raise Opaque("too many positional arguments")
@@ -1200,7 +1200,7 @@ class TermBuilder:
                     if c.kind == "method_internal" and f.kind != "staticmethod":
                         args = [self.term(c.receiver, n)] + args
                     bind = {}
-                    for pname, a in zip(f.params, args):
+                    for pname, a in zip(f.own_params, args):
                         bind[pname] = a
                     bind.update(kw)
                     sub = TermBuilder(self.ana, f, bindings=bind, depth=self.depth + 1, no_inline=self.no_inline)
